@@ -36,7 +36,8 @@ def dec(v):
   if v == "None":
     return None
   t, _, r = v.partition(":")
-  return {"i": int, "b": lambda s: s == "1", "s": str, "f": float, "l": lambda s: [int(x) for x in s.split()]}[t](r)
+  return {"i": int, "b": lambda s: s == "1", "s": str, "f": float, "l": lambda s: [int(x) for x in s.split()],
+          "a": lambda s: np.array(float(s), dtype=np.float32)}[t](r)
 
 
 def build(c):
@@ -145,9 +146,14 @@ def main():
       events.append({"t": t, "a": "Registry", "name": name, "got": getattr(got, "__name__", str(got))})
   pairs = list(itertools.product(ROUTES, ROUTES))
   for j, c in mine:
-    seqs = [[r] for r in ROUTES] + [list(p) for p in (pairs if tier == "thorough" else rnd.sample(pairs, 3))]
+    # second-generation exports (a rebuilt object is exported again) are always part of the history set
+    seqs = [[r] for r in ROUTES] + [list(p) for p in (pairs if tier == "thorough" else
+                                                      [("RT_FromConfig", "RT_FromConfig"), ("RT_Lookup", "RT_Keras"),
+                                                       ("RT_Keras", "RT_FromConfig")] + rnd.sample(pairs, 1))]
     if len(sys.argv) > 7 and sys.argv[7] == "text":
       seqs = [["RT_Str"], ["RT_Text0"], ["RT_Text1"], ["RT_Text2"], ["RT_Str", "RT_Str"], ["cold", "RT_Str"]]
+      if any(str(v).startswith("a:") for v in c["opts"].values()):
+        seqs = [s_ for s_ in seqs if not s_[0].startswith("RT_Text")]   # an ndarray argument has no text in the literal grammar
     else:
       # cold histories: the route is taken on an object that was never called (not built); the reference function
       # is observed on an identically constructed twin
